@@ -319,6 +319,10 @@ class Calls:
             if ex.decide(b):
                 raise ThrowSignal()
         self.havoc_assigns(ex, c, this_path, names)
+        if is_ctor and this_path is not None and 'this' in c.assigns:
+            # a constructed object's owning / shared pointer members point to objects of their own (non-null, of their
+            # static type), exactly as for a receiver whose construction is not seen (verify.bind_ref_fields)
+            self.materialise_ptr_members(ex, this_path)
         for fld, tgt in c.binds.items():
             ex.write(this_path.field(fld), RefVal(self.bind_target(ex, tgt, names, this_path)))
         # result
@@ -629,6 +633,27 @@ class Calls:
         if isinstance(v, RefVal):
             v = ex.read(v.path)
         return v
+
+    def materialise_ptr_members(self, ex, path, depth=0):
+        obj = ex.read(path)
+        if not isinstance(obj, SVal) or depth > 3:
+            return
+        try:
+            sh = ex.shapes.of(obj.cls)
+        except Unsupported:
+            return
+        if sh[0] != 'struct':
+            return
+        for fn_, fs in sh[2]:
+            cur = obj.f.get(fn_)
+            if fs[0] == 'ptr' and fs[1][0] == 'struct' and (isinstance(cur, Opaque) or (isinstance(cur, PtrVal) and cur.path is None)):
+                root = ex.new_root('heap_' + fs[1][1].split('::')[-1], fresh(fs[1], ex.fresh_name('obj_' + fn_)))
+                self.type_inv(ex, ex.read(root), fs[1])
+                ex.write(path.field(fn_), PtrVal(root, None))
+                ex.assumed.add('pointer members of a constructed object are non-null and point to objects of their static type')
+                self.materialise_ptr_members(ex, root, depth + 1)
+            elif fs[0] == 'struct':
+                self.materialise_ptr_members(ex, path.field(fn_), depth + 1)
 
     def raw_object(self, ex, sh):
         f = {}
